@@ -46,3 +46,27 @@ Example zc_atomic_nonvacuous :
   (map snd (clog _ s), tail (ua _ (q _ s)) - head (ua _ (q _ s)), tail (ub _ (q _ s)) - head (ub _ (q _ s))) =
   ([CPending 0; CSendOk 7; CSendOk 8; CPending 0; CYield 0 7; CYield 0 8; CPending 0], 4, 0).
 Proof. vm_compute. reflexivity. Qed.
+
+(* ---- the crossbeam Uni channel (Chan/ChanXb.v, in lock-step with uni/channels/movable/crossbeam.rs; crossbeam's own queue is taken to
+   be an atomic FIFO): for every interleaving of producers (send / send_with), pollers, drivers, length queries and cancellations, what
+   was handed out is, in order, a prefix of what the channel accepted, the rest is what is still queued, and never more than N are queued ---- *)
+From RM Require Import ChanXb ChanXbProps.
+Theorem C01_crossbeam_exactly_once_in_order :
+  forall N, 0 < N -> forall M k evs,
+    let l := qlog (bq (fold_left (bxexec N M k) evs (bxinit k))) in yielded_of l = firstn (length (yielded_of l)) (accepted_of l).
+Proof. exact xb_exactly_once_in_order. Qed.
+Print Assumptions C01_crossbeam_exactly_once_in_order.
+
+Theorem C02_crossbeam_nothing_lost_and_capacity :
+  forall N, 0 < N -> forall M k evs,
+    let x := bq (fold_left (bxexec N M k) evs (bxinit k)) in
+    yielded_of (qlog x) ++ qitems x = accepted_of (qlog x) /\ Z.of_nat (length (qitems x)) <= N.
+Proof. exact xb_queue_invariant. Qed.
+Print Assumptions C02_crossbeam_nothing_lost_and_capacity.
+
+Example crossbeam_nonvacuous :
+  let s := fst (bxrun 2 1 1 (bxinit 1) (bprogs_of [[BoSend 1; BoSend 2; BoSend 3; BoSendWith 4]; [BoBase (CoDrive 0)]])
+                      (repeat 0 20 ++ repeat 1 16 ++ repeat 0 8 ++ repeat 1 8)%nat) in
+  (map snd (clog _ (bb s)), qitems (bq s)) =
+  ([CSendOk 1; CSendOk 2; CSendFull 3; CSendFull 4; CYield 0 1; CYield 0 2; CPending 0; CPending 0], []).
+Proof. vm_compute. reflexivity. Qed.
